@@ -99,7 +99,11 @@ SPEC = [
                'flatten_list': {'params': {'values': 'list[tree[obj]]'}, 'returns': 'list[obj]', 'recursive': True}}},
     {'module': 'descriptors', 'file': 'pybufrkit/descriptors.py',
      'classes': {
-         'Descriptor': {'attrs': {'id': 'int'}, 'methods': {'F': {}, 'X': {}, 'Y': {}}},
+         'Descriptor': {'attrs': {'id': 'int'}, 'methods': {'F': {}, 'X': {}, 'Y': {}, '__str__': {}}},
+         # (w5-smallsrc) the labels of the decoded descriptors
+         'AssociatedDescriptor': {'attrs': {'id': 'int'}, 'methods': {'__str__': {}}},
+         'SkippedLocalDescriptor': {'attrs': {'id': 'int'}, 'methods': {'__str__': {}}},
+         'MarkerDescriptor': {'attrs': {'id': 'int', 'marker_id': 'int'}, 'methods': {'__str__': {'compiler': 'small'}}},
          'ReplicationDescriptor': {'attrs': {'id': 'int', 'members': 'list[obj]'},
                                    'methods': {'n_items': {}, 'n_members': {}}},
          'FixedReplicationDescriptor': {'attrs': {'id': 'int'}, 'methods': {'n_repeats': {}}},
@@ -161,6 +165,12 @@ SPEC += [
                            'subst': {'parameter.value.decoded_values_all_subsets': ('rows', 'list[obj]')}},
      }},
 ]
+
+_spec_of('dataquery')['small_methods'] = {
+    'NodePath': {'attrs': {'path_string': 'str', 'subset_slice': 'opt[intorslice]', 'components': 'list[PathComponent]'},
+                 'methods': {'slice_to_str': {'params': {'slc': 'opt[intorslice]'}},
+                             '__str__': {}}},
+}
 
 _spec_of('mdquery').setdefault('classes', {}).update({
     'MetadataExprParser': {'attrs': {}, 'methods': {
@@ -566,7 +576,23 @@ class ExprCompiler(object):
 
     def e_Dict(self, e):
         if e.keys:
-            self.bad(e, 'non-empty dict display')
+            # (w5-smallsrc) a dict display whose keys are pairwise distinct int / str literals: the list of pairs
+            # in the order written (with equal keys the later entry would replace the earlier: rejected)
+            if any(k is None for k in e.keys) or not all(
+                    isinstance(k, ast.Constant) and isinstance(k.value, (int, str)) and not isinstance(k.value, bool) for k in e.keys):
+                self.bad(e, 'dict display with ** or with keys that are not int / str literals')
+            if len({(type(k.value).__name__, k.value) for k in e.keys}) != len(e.keys):
+                self.bad(e, 'dict display with a repeated key')
+            ks = [self.to_int(self.expr(k)) for k in e.keys]
+            vs = [self.to_int(self.expr(v)) for v in e.values]
+            kt, vt = TV(), TV()
+            for k in ks:
+                self.unify(k.ty, kt, e)
+            for v in vs:
+                self.unify(v.ty, vt, e)
+            n = len(ks)
+            return self.lift(ks + vs, lambda c: '[' + ', '.join('(%s, %s)' % (c[i], c[n + i]) for i in range(n)) + ']',
+                             ('dict', kt, vt))
         return Ex('[]', ('dict', TV(), TV()))
 
     def e_UnaryOp(self, e):
@@ -2861,6 +2887,9 @@ class ModuleGen(object):
                 st.append('  %s : %s' % (lean_ident(k), lean_type(attrs[k])))
             func_texts.append('\n'.join(st))
             func_texts.extend(texts)
+        if spec.get('small_methods'):                           # w5-smallsrc: read-only methods
+            from harness import py2lean_small
+            py2lean_small.render_small_methods(self, spec, func_texts)
         for fname, fs in spec.get('fragments', {}).items():     # w5-smallsrc: harness/py2lean_small.py
             from harness import py2lean_small
             text, item = py2lean_small.render_fragment(self, fname, fs)
@@ -2997,4 +3026,7 @@ def main():
 
 
 if __name__ == '__main__':
-    main()
+    # run the module under its import name, so that the extension modules (py2lean_small, py2lean_state), which
+    # import `harness.py2lean`, see the same classes
+    from harness import py2lean as _canonical
+    _canonical.main()
